@@ -123,6 +123,24 @@ func main() {
 				normNotes = append(normNotes, tag+"inlined for analysis: "+in)
 			}
 		}
+		// keep the scanner's position variable in memory even if no closure captures it any more
+		if pin, notes := normalize.PinLocals(pr, rules.CanonicalName(pr), cur, map[string]bool{"lexer.Tokenize": true}); len(pin) > 0 {
+			next := map[string][]byte{}
+			for k, v := range cur {
+				next[k] = v
+			}
+			for k, v := range pin {
+				next[k] = v
+			}
+			if prog2, err2 := load.Load(load.Options{Dir: *repo, Overlay: next, GOARCH: *goarch}); err2 == nil {
+				pr, cur = prog2, next
+				for _, n := range notes {
+					normNotes = append(normNotes, tag+n)
+				}
+			} else {
+				normNotes = append(normNotes, tag+"pinning abandoned (overlay does not type-check)")
+			}
+		}
 		return pr, cur, kept
 	}
 	if !*noNorm && *dump != "@vocab" && *dump != "@fields" {
